@@ -8,6 +8,10 @@ import Driver.ConnGater
 import Driver.Exec
 import Driver.SMT
 import Driver.RMT
+import Driver.Sync
+import Driver.Generator
+import Driver.Cert
+import Driver.Node
 import Driver.ReqResp
 
 def main (args : List String) : IO UInt32 := do
@@ -22,6 +26,11 @@ def main (args : List String) : IO UInt32 := do
   | ["C16"] => Driver.Exec.main; return 0
   | ["C10"] => Driver.SMT.main; return 0
   | ["C11"] => Driver.RMT.main; return 0
+  | ["C19"] => Driver.Sync.main; return 0
+  | ["C15"] => Driver.Generator.main; return 0
+  | ["C06"] => Driver.Cert.main; return 0
+  | ["C04"] => Driver.Node.main; return 0
+  | ["C05"] => Driver.Node.main; return 0
   | ["C17"] => Driver.ReqResp.main; return 0
   | ["C01"] => Driver.BFT.main; return 0
   | _ => IO.eprintln "usage: ldriver <property-id>"; return 2
